@@ -333,7 +333,12 @@ MiscChecks ==
       out |-> <<"Index.Reg.get", "2.5", "Index.Reg.set", "Index.Reg.get", "4">>],
      [tmpl |-> "for-array", iface |-> "Iterable", ty |-> "array<Pt>", src |-> <<"for d3 in [Pt(1, 2), Pt(2, 0)] {", "println(d3)", "}">>,
       out |-> <<"ToString.Pt", "Pt<1,2>", "ToString.Pt", "Pt<2,0>">>],
-     [tmpl |-> "for-int", iface |-> "Iterable", ty |-> "int", src |-> <<"for d4 in 2 {", "println(d4)", "}">>, out |-> <<"0", "1">>] >>
+     [tmpl |-> "for-int", iface |-> "Iterable", ty |-> "int", src |-> <<"for d4 in 2 {", "println(d4)", "}">>, out |-> <<"0", "1">>],
+     \* a generic struct whose type parameter is instantiated with void: the other fields are where they are for every instance
+     [tmpl |-> "field-after-void", iface |-> "none", ty |-> "Pr<void>",
+      src |-> <<"let pv = Pr(nil, 1)", "println(pv.snd)", "pv.snd = 5", "println(pv.snd)">>, out |-> <<"1", "5">>],
+     [tmpl |-> "field-after-void", iface |-> "none", ty |-> "Pr<string>",
+      src |-> <<"let ps = Pr(\"s\", 2)", "println(ps.snd)", "ps.snd = 6", "println(ps.snd)", "println(ps.fst)">>, out |-> <<"2", "6", "s">>] >>
 
 \* two modules that each declare a type named Tw (different layouts, own implementations), used side by side through
 \* namespace prefixes: the instances of one generic function / interface method for the two types are different instances
